@@ -13,6 +13,7 @@ import gc
 import pickle
 
 from ..core import Violation, HarnessError, stream, sut, mix
+from ..core import deep
 from .. import graph as G
 from .. import zoo12 as Z
 
@@ -51,8 +52,8 @@ class Prop:
     def gen(self, seed):
         c = stream(seed, "config")
         r = stream(seed, "ops")
-        npool = c.randint(2, 5)
-        nops = c.choice([4, 8, 12, 18, 24, 30])
+        npool = deep(c, [2, 3, 4, 5], [6, 7])
+        nops = deep(c, [4, 8, 12, 18, 24, 30], [45, 60])
         read_mod = c.choice([1, 2, 3, 5])        # read ~1/read_mod of the (object, property) pairs per op
         listen = [[c.random() < 0.5 for _ in Z.PROP_NAMES] for _ in range(npool)]
         listen_mech = c.choice(["observe", "otc", "both"])
